@@ -441,8 +441,10 @@ def _mk(fmt, ntraj, specs, refspec, has_ref, like_ref, t0, export, align_mode, c
     o["project"] = project
     if tf is not None:
         tf = dict(tf)
-        if tf["sim3"]:
-            tf["right"] = False  # a similarity is only defined from the left
+        if tf["sim3"] and tf["right"]:
+            # P*T with a Sim(3) T: position p + R_p t, orientation R_p R (the scale of T reaches nothing); the propagating
+            # variant has no rigid-body meaning with a scale and is not generated
+            tf["propagate"] = False
         o["transform"] = tf
     if merge and not like_ref:
         # distinct stamps across the merged inputs: give every trajectory its own phase (like_ref: keep the drawn phases,
